@@ -6,7 +6,7 @@
 HERE=$(cd "$(dirname "$0")" && pwd); VERIF=$(dirname "$HERE")
 N=${1:-300}; SCALE=${2:-0.003}
 BIN="$VERIF/sim/target/release/tasim"
-(cd "$VERIF/sim" && CARGO_NET_OFFLINE=true cargo build --release --offline >/dev/null 2>&1) || { echo build failed; exit 2; }
+(cd "$VERIF/sim" && CARGO_NET_OFFLINE=true cargo build --release --offline >/dev/null 2>&1 && CARGO_NET_OFFLINE=true cargo build --profile shipped --offline >/dev/null 2>&1) || { echo build failed; exit 2; }
 export VERIF_DRY=1 VERIF_SKIP_FIXED=1 VERIF_FAST=1 VERIF_SCALE=$SCALE VERIF_DIR=$VERIF
 one() { # prop seed
   a=$(VERIF_SEED=$2 VERIF_JOBS=1 "$BIN" $1 quick | grep ^DIGEST)
